@@ -42,6 +42,8 @@ def run_spec(spec, cap=20000, wall=30, fault=None, sim_class=None):
         Q.attach(tr, cap=cap, tie_policy=spec.get('tie', 'native'), tie_seed=spec['seed'], tie_script=spec.get('tie_script'))
         run = spec['run']
         if run['method'] == 'time':
+            for t_split in run.get('splits', []):   # the same run reached in several successive calls (pause / resume)
+                Q.simulate_until_max_time(t_split)
             Q.simulate_until_max_time(run['T'])
         elif run['method'] == 'customers':
             Q.simulate_until_max_customers(run['n'], method=run['cmethod'])
